@@ -796,8 +796,12 @@ def run_diff(spec, rec):
         # a proxy that re-raised a referent's exception sits in a reference
         # cycle (exception -> traceback -> _callmethod frame -> exception)
         # until the collector runs; it is a live proxy until then
+        before_gc = m._number_of_objects()
         gc.collect()
         left = m._number_of_objects()
+        if before_gc and not left:
+            rec.anomaly('referent_kept_until_gc_by_exception_cycle_in_callmethod',
+                        objects_before_gc=before_gc)
         if left:
             rec.violation('object_alive_after_last_release', {'mode': 'diff', 'after': 'all_dropped'},
                           objects_left=left, table=m._debug_info()[:1500])
